@@ -85,6 +85,8 @@ ReplicaWalkScan(d, op, rf, za, ord) == ScanWalk(d, op, za, ord, 1, rf, {}, {})
 (***************************************************************************)
 (* Health, majority, the lookup result.                                    *)
 (***************************************************************************)
+\* hb classes are about the full-resolution heartbeat age versus the timeout (RingTypes): "stale" is any
+\* age > timeout, however little, "edge" the closed boundary age <= timeout.
 Healthy(d, op, i) == d[i].state \in op.healthy /\ HeartbeatOK(d[i].hb)
 
 Majority(rf, walked) == (Max2(rf, walked) \div 2) + 1
